@@ -54,6 +54,7 @@ func main() {
 		write(filepath.Join(d, "types.go"), pk.TypesSource())
 		write(filepath.Join(d, "zz_lib.go"), gombokgen.LibSource(pk.Name))
 		write(filepath.Join(d, "zz_lib2.go"), gombokgen.Lib2Source(pk.Name))
+		write(filepath.Join(d, "zz_lib3.go"), gombokgen.Lib3Source(pk.Name))
 		if !pk.Bad {
 			write(filepath.Join(d, "zz_driver.go.txt"), pk.DriverSource(6))
 			write(filepath.Join(d, "cmd", "main.go.txt"), pk.MainSource())
